@@ -124,7 +124,17 @@ def run(ctx):
     p = ctx.run_harness(rbin, "TestVerifC16Racy", env=dict(VERIF_OUT=trp, VERIF_N=600 if q else 20000), timeout=3000, check=False)
     trh = os.path.join(ctx.build, "http.ndjson")
     p2 = ctx.run_harness(rbin, "TestVerifC16HTTP", env=dict(VERIF_OUT=trh, VERIF_N=300 if q else 6000), timeout=3000, check=False)
-    for pp, nm in ((p, "racy"), (p2, "http")):
+    # slot operations from real goroutines at once: every round must look like some order of its (atomic) operations
+    trs = os.path.join(ctx.build, "slotsracy.ndjson")
+    p3 = ctx.run_harness(rbin, "TestVerifC16SlotsRacy", env=dict(VERIF_OUT=trs, VERIF_N=3000 if q else 60000), timeout=3000, check=False)
+    if p3.returncode == 0 or "WARNING: DATA RACE" in p3.stdout:
+        srecs = vf.read_ndjson(trs) if os.path.exists(trs) else []
+        for r in srecs:
+            if r.get("kind") == "slots-racy":
+                ctx.candidate(dict(kind="slots-racy", what=r["what"].split(":")[0][:60]),
+                              "concurrent slot operations (%d completers, waiter parked=%s): %s" % (r["completers"], r["parked"], r["what"]), r)
+        ctx.cov["evaluations"] += sum(r.get("rounds", 0) for r in srecs if r.get("summary"))
+    for pp, nm in ((p, "racy"), (p2, "http"), (p3, "slots-racy")):
         if "WARNING: DATA RACE" in pp.stdout:
             i = pp.stdout.index("WARNING: DATA RACE")
             rep = pp.stdout[i:i + 3000]
